@@ -208,4 +208,56 @@ theorem plain_single_ok (P : Params) (base : Int) (hA : 0 < P.A) (hA2 : P.A ≤ 
   rw [this] at hbase
   exact Int.emod_eq_zero_of_dvd hbase
 
+
+/-- all layout facts of one buffer at once (used by `C09_blocks_disjoint_inside`) -/
+theorem Multi.buffer_layout_ok {P : Params} {k : Int} (hM : Multi P k) (hA2 : P.A ≤ 1024) (base : Int)
+    (hbase : P.allocAlign ∣ base) (buf first : Int) (hbuf : buf = (newBuffer P base).buf)
+    (hfirst : first = (newBuffer P base).first) :
+    (∀ i, first ≤ i → i < first + P.N →
+        getBlock P buf i % P.A = 0 ∧ Inside (getBlock P buf i) P.S base (base + P.bufferSize) ∧
+        (∀ j, first ≤ j → j < first + P.N → i ≠ j → Disj (getBlock P buf i) P.S (getBlock P buf j) P.S) ∧
+        (∀ r ∈ metaRanges P buf first, Disj (getBlock P buf i) P.S r.1 r.2)) ∧
+    (∀ r ∈ metaRanges P buf first, Inside r.1 r.2 base (base + P.bufferSize)) ∧
+    (metaRanges P buf first).Pairwise (fun r s => Disj r.1 r.2 s.1 s.2) ∧
+    0 ≤ (newBuffer P base).beginOffset ∧
+    (newBuffer P base).beginOffset < 2 ^ Extracted.poolBeginOffsetLog ∧
+    getBlock P buf first - (newBuffer P base).beginOffset = base := by
+  subst hbuf hfirst
+  obtain ⟨hlo, hhi, ho0, ho1, hoff⟩ := hM.newBuffer_inside base hA2 hbase
+  obtain ⟨_, hf1, hf2, hok, _⟩ := hM.firstBlock_ok base
+  have hf1' : -P.N < (newBuffer P base).first := hf1
+  have hf2' : (newBuffer P base).first ≤ 0 := hf2
+  have hok' : BufOK P (newBuffer P base).buf := hok
+  clear hf1 hf2 hok
+  have hS := hM.S_pos; have hA := hM.hA
+  have hmeta := hM.meta_geometry (newBuffer P base).buf (newBuffer P base).first hf1'
+  have hE := hM.blocksEnd_ge (newBuffer P base).buf (newBuffer P base).first hf1'
+  have hmEnd : blocksEnd P (newBuffer P base).buf (newBuffer P base).first ≤ metaEnd P (newBuffer P base).buf (newBuffer P base).first := by
+    simp only [metaEnd, beginOffPos, nextPos, prevPos, sizeofPtr, sizeofU16, sizeofBufferBytes]
+    split <;> omega
+  refine ⟨?_, ?_, hM.meta_pairwise (newBuffer P base).buf (newBuffer P base).first hf1', ho0, ?_, hoff⟩
+  · intro i hi hi2
+    obtain ⟨g1, g2, g3⟩ := hM.block_geometry (newBuffer P base).buf (newBuffer P base).first i hf1' hi hi2
+    refine ⟨hM.getBlock_aligned (newBuffer P base).buf i hok'.aligned, ⟨by omega, by omega⟩, ?_, ?_⟩
+    · intro j _ _ hij
+      rcases Int.lt_or_gt_of_ne hij with hlt | hgt
+      · exact Or.inl (hM.block_order (newBuffer P base).buf i j hlt)
+      · exact Or.inr (hM.block_order (newBuffer P base).buf j i hgt)
+    · intro r hr
+      rcases hmeta r hr with ⟨m1, m2⟩ | ⟨m1, m2⟩
+      · rcases g3 with g3 | g3
+        · exact Or.inl (by omega)
+        · exact Or.inr (by omega)
+      · exact Or.inl (by omega)
+  · intro r hr
+    have hb0 : base ≤ (newBuffer P base).buf := by
+      have m : (newBuffer P base).first * P.S ≤ 0 * P.S := Int.mul_le_mul_of_nonneg_right hf2' (by omega)
+      omega
+    rcases hmeta r hr with ⟨m1, m2⟩ | ⟨m1, m2⟩
+    · exact ⟨by omega, by omega⟩
+    · exact ⟨by omega, by omega⟩
+  · have : P.A ≤ 1024 := hA2
+    simp only [Extracted.poolBeginOffsetLog]; omega
+
+
 end Momo.Pool
